@@ -9,6 +9,7 @@
    table health, accuracy -- are validated by TLC against TraceInterpFn.tla.
 """
 import json
+import math
 import os
 import random
 
@@ -111,7 +112,17 @@ def snapshot(f):
         ref = CubicSpline(xs, vs, extrapolate=True, axis=0)
     except Exception:
         return None
-    return dict(ref=ref, lo=float(f.interpolationRangeMin()), hi=float(f.interpolationRangeMax()))
+    return dict(ref=ref, lo=float(f.interpolationRangeMin()), hi=float(f.interpolationRangeMax()), n=len(xs))
+
+
+def snap_after(f, before):
+    """the table after the call, if the call changed it"""
+    now = snapshot(f)
+    if now is None or before is None:
+        return now
+    if now["lo"] == before["lo"] and now["hi"] == before["hi"] and len(f._interpolationPoints) == before.get("n", -1):
+        return None
+    return now
 
 
 def shape_input(xs, shape):
@@ -162,18 +173,33 @@ def do_eval(f, op):
         if snap is None:
             rules.append("garbage")
             continue
-        inr = snap["lo"] <= X[i] <= snap["hi"]
-        if inr and close(v, snap["ref"](X[i])):
-            rules.append("spline")
-            worst = min(worst, quant.reldigits(v, f.truth(X[i]), floor=1.0))
-        elif (not inr) and close(v, snap["ref"](snap["lo"] if X[i] < snap["lo"] else snap["hi"])):
-            rules.append("boundary")
-        elif (not inr) and close(v, snap["ref"](X[i])):
-            rules.append("extrap")
-        else:
-            rules.append("garbage")
+        # The reference is the table as it was when the call was made: an adaptive update can fire in the middle of the
+        # call (the directly evaluated side may rebuild the table), and the other side must still be served from the table
+        # its points were classified against (repaired in a088852: it used the new range end).
+        got = "garbage"
+        for sn in (snap,):
+            if sn is None:
+                continue
+            inr = sn["lo"] <= X[i] <= sn["hi"]
+            if inr and close(v, sn["ref"](X[i])):
+                got = "spline"
+                worst = min(worst, quant.reldigits(v, f.truth(X[i]), floor=1.0))
+            elif (not inr) and close(v, sn["ref"](sn["lo"] if X[i] < sn["lo"] else sn["hi"])):
+                got = "boundary"
+            elif (not inr) and close(v, sn["ref"](X[i])):
+                got = "extrap"
+            if got != "garbage":
+                break
+        rules.append(got)
     ev["rules"] = rules
     ev["d"] = worst
+    # largest gap of the table the call started from, in tenths of the function's own length unit (4 DELTA): what a cubic
+    # spline can resolve depends on it (the table grows unevenly through adaptive updates)
+    if snap is not None:
+        gaps = np.diff(np.sort(np.asarray(snap["ref"].x, float)))
+        ev["hmax10"] = int(math.ceil(10 * float(np.max(gaps)) / (4 * DELTA))) if gaps.size else 0
+    else:
+        ev["hmax10"] = 0
     return ev
 
 
